@@ -30,8 +30,8 @@ def fit_kde(D, w, G, cell, s, Q, fp, fs, reach=None, prior=None):
     if reach is None:
         kde.fit(Gf)
     else:
-        # observe the localised weights used for each grid point's covariance (last call per grid point): the share of
-        # the OTHER grid points decides the property's proviso "the localisation reaches at least one other grid point"
+        # observe the localised weights used for each grid point's covariance (last call per grid point): the share
+        # outside the dominant grid point decides the property's proviso "the localisation reaches at least one other grid point"
         import skmatter.neighbors._sparsekde as M
         orig = getattr(M, "_local_population", None)
         last = {}
@@ -42,7 +42,9 @@ def fit_kde(D, w, G, cell, s, Q, fp, fs, reach=None, prior=None):
                     hit = np.flatnonzero(np.all(np.asarray(gj) == np.asarray(gi), axis=1))
                     if len(hit) == 1 and np.isfinite(out[1]) and out[1] > 0:
                         wl = np.asarray(out[0], float)
-                        last[int(hit[0])] = float((wl.sum() - wl[hit[0]]) / wl.sum())
+                        # share of the localised population that lies OUTSIDE its most populated grid point (a grid point
+                        # with an empty Voronoi cell has no weight of its own: one neighbour alone is still a single point)
+                        last[int(hit[0])] = float(1.0 - wl.max() / wl.sum())
                 except Exception:
                     pass
                 return out
@@ -88,14 +90,20 @@ def case(cid, rng):
     G = uniq[:ng].copy()
     if rng.random() < 0.3:
         G2 = G + rng.integers(-1, 2, size=G.shape)
-        if len(np.unique(G2, axis=0)) == ng:
+        # distinct also as points of the periodic cell (9 and 0 coincide for a cell of length 9)
+        if len(np.unique(G2 % np.array(cell) if periodic else G2, axis=0)) == ng:
             G = G2
     # query points are never descriptors: half-lattice positions
     Q = rng.integers(-4, 28, size=(4, dim)) + 0.25      # never a descriptor, never exactly half a cell from anything
+    far = (not periodic) and rng.random() < 0.3
+    if far:
+        Qnear = Q[-1].copy()
+        Q[-1] = Q[-1] + rng.choice([-1, 1], size=dim) * int(rng.integers(60, 400))       # one query in the far tail (log-density below -708)
+        Qfar = Q[-1].copy()
     fp, fs = (0.5, -1.0) if rng.random() < 0.7 else (-1.0, float(rng.choice([0.3, 0.6])))
     fp = float(rng.choice([0.15, 0.3, 0.5])) if fs < 0 else fp
     c = {"id": cid, "kind": kind, "dim": dim, "D": D.astype(int).tolist(), "w": [int(v) for v in w], "G": G.astype(int).tolist(), "cell": cell, "scale": s,
-         "Q": Q.tolist(), "fp": ([int(round(fp * 20)), 20] if fp > 0 else []), "fpoints": fp, "fspread": fs, "raised": False, "errclass": "", "labels": [], "gw": [], "H": [], "finite": True, "ld": [], "score": 0, "routes": [], "reach": []}
+         "Q": Q.tolist(), "fp": ([int(round(fp * 20)), 20] if fp > 0 else []), "fpoints": fp, "fspread": fs, "raised": False, "errclass": "", "labels": [], "gw": [], "H": [], "finite": True, "ld": [], "score": 0, "routes": [], "reach": [], "ldfinite": True}
     W = int(w.sum())
     try:
         with warnings.catch_warnings():
@@ -105,9 +113,18 @@ def case(cid, rng):
                 prior = uniq[ng:2 * ng]
                 c["kind"] = kind + "+refit"
             kde, ld = fit_kde(D, w, G, cell, s, Q, fp, fs, reach=c["reach"], prior=prior)
+            if far and np.all(np.isfinite(ld)) and ld.min() < -3e4:
+                # keep the tail query inside the range of the fixed-point encoding (log-densities down to -3e4): move it closer
+                for div in (4, 16, 64):
+                    Q[-1] = Qnear + (Qfar - Qnear) / div
+                    ld = kde.score_samples(np.asarray(Q, float) / s)
+                    if ld.min() >= -3e4:
+                        break
+                c["Q"] = Q.tolist()
             H = np.asarray(kde.bandwidth_, float)
-            c["finite"] = bool(np.all(np.isfinite(H)) and np.all(np.isfinite(ld)))
-            if not c["finite"]:
+            c["finite"] = bool(np.all(np.isfinite(H)))
+            c["ldfinite"] = bool(np.all(np.isfinite(ld)))       # the logarithm of a finite mixture is finite (log-sum-exp), also in the far tail
+            if not (c["finite"] and c["ldfinite"]):
                 c["H"] = [[[0] * dim] * dim] * ng
                 c["ld"] = [0] * len(Q)
                 return c
@@ -179,7 +196,7 @@ def gen(args):
     return [case("w%d-%d" % (wid, t), rng) for t in range(n)]
 
 
-KEYS = ("id", "D", "w", "G", "cell", "fp", "raised", "errclass", "labels", "gw", "H", "finite", "ld", "score", "routes", "reach")
+KEYS = ("id", "D", "w", "G", "cell", "fp", "raised", "errclass", "labels", "gw", "H", "finite", "ld", "score", "routes", "reach", "ldfinite")
 
 
 def strip(c):
